@@ -155,13 +155,13 @@ def levelOf (S : Schema) : Cx → List DNode → NPath → Option (Cx × List DN
 
 mutual
 /-- the nodes satisfying `p`, in DFS order (`pfx` = path of the node) -/
-def pathsN (p : DNode → Bool) (pfx : NPath) : DNode → List NPath
-  | .inner s f m ks => (if p (.inner s f m ks) then [pfx] else []) ++ pathsL p pfx 0 ks
+def npathsN (p : DNode → Bool) (pfx : NPath) : DNode → List NPath
+  | .inner s f m ks => (if p (.inner s f m ks) then [pfx] else []) ++ npathsL p pfx 0 ks
   | .term s f m v => if p (.term s f m v) then [pfx] else []
 /-- `pfx` = path of the parent, `i` = index of the first node of the list -/
-def pathsL (p : DNode → Bool) (pfx : NPath) : Nat → List DNode → List NPath
+def npathsL (p : DNode → Bool) (pfx : NPath) : Nat → List DNode → List NPath
   | _, [] => []
-  | i, n :: ns => pathsN p (pfx ++ [i]) n ++ pathsL p pfx (i + 1) ns
+  | i, n :: ns => npathsN p (pfx ++ [i]) n ++ npathsL p pfx (i + 1) ns
 end
 
 /-- the path `q` after the node at `d` was unlinked: `none` when `q` was inside -/
@@ -210,7 +210,7 @@ def nameOfSid (S : Schema) (sid : Nat) : Bytes :=
 
 /-- the local names of the nodes with an unresolved when (a when and no `LYD_WHEN_TRUE`), the node at `cur` excepted -/
 def unresolvedNames (S : Schema) (W : WhenTab) (T : List DNode) (cur : NPath) : List Bytes :=
-  ((pathsL (fun n => hasWhen S W n.sid && !n.flags.whenTrue) [] 0 T).filter (· != cur)).filterMap fun p =>
+  ((npathsL (fun n => hasWhen S W n.sid && !n.flags.whenTrue) [] 0 T).filter (· != cur)).filterMap fun p =>
     (getAt T p).map fun n => nameOfSid S n.sid
 
 /-- the coarse rule: some test of the expression has the local name of an unresolved node (or is a wildcard while there is one) -/
@@ -405,7 +405,7 @@ def rounds (ev : XpEv) (X : SchemaX) (W : WhenTab) (o : VOpts) : Nat → WSt →
     if st'.set.length < st.set.length then rounds ev X W o f st' else st'
 
 /-- the when-nodes in the order `lyd_validate_subtree` collects them -/
-def whenSet (S : Schema) (W : WhenTab) (T : List DNode) : List NPath := pathsL (fun n => hasWhen S W n.sid) [] 0 T
+def whenSet (S : Schema) (W : WhenTab) (T : List DNode) : List NPath := npathsL (fun n => hasWhen S W n.sid) [] 0 T
 
 /-- **the `when` phase** on the tree the subtree walk left (implicit nodes of when-schema-nodes flagged `whenTrue`) -/
 def whenPhaseG (ev : XpEv) (X : SchemaX) (W : WhenTab) (o : VOpts) (T : List DNode) : List DNode × Out :=
@@ -468,5 +468,88 @@ def whenIndep (S : Schema) (W : WhenTab) (T : List DNode) : Bool :=
     match getAt T p with
     | some n => (whensOf S W n.sid).all fun (self, e) => !mayTouch S W T (if self then p else p.dropLast) e
     | none => true
+
+/-! ## without `when` statements the phase does nothing -/
+
+theorem whensUp_nil (S : Schema) : ∀ (fuel sid : Nat), whensUp S [] fuel sid = [] := by
+  intro fuel
+  induction fuel with
+  | zero => intro sid; rfl
+  | succ f ih =>
+    intro sid
+    unfold whensUp
+    have h0 : ownWhens [] sid = [] := rfl
+    rw [h0]
+    cases sparent S sid with
+    | none => rfl
+    | some p =>
+      dsimp only
+      split
+      · rw [ih]; rfl
+      · rfl
+
+theorem whensOf_nil (S : Schema) (sid : Nat) : whensOf S [] sid = [] := by
+  unfold whensOf
+  have h0 : ownWhens [] sid = [] := rfl
+  rw [h0]
+  cases sparent S sid with
+  | none => rfl
+  | some p =>
+    dsimp only
+    split
+    · rw [whensUp_nil]; rfl
+    · rfl
+
+theorem hasWhen_nil (S : Schema) (sid : Nat) : hasWhen S [] sid = false := by
+  unfold hasWhen; rw [whensOf_nil]; rfl
+
+mutual
+theorem markImplN_id (hw : Nat → Bool) (h : ∀ s, hw s = false) : ∀ (n : DNode), markImplN hw n = n
+  | .inner s f m ks => by
+    unfold markImplN
+    rw [h s, markImplL_id hw h ks]
+    rfl
+  | .term s f m v => by
+    unfold markImplN
+    rw [h s]
+    rfl
+theorem markImplL_id (hw : Nat → Bool) (h : ∀ s, hw s = false) : ∀ (ns : List DNode), markImplL hw ns = ns
+  | [] => by unfold markImplL; rfl
+  | n :: ns => by
+    unfold markImplL
+    rw [markImplN_id hw h n, markImplL_id hw h ns]
+end
+
+mutual
+theorem npathsN_nil (p : DNode → Bool) (h : ∀ n, p n = false) : ∀ (n : DNode) (pfx : NPath), npathsN p pfx n = []
+  | .inner s f m ks, pfx => by
+    unfold npathsN
+    rw [h, npathsL_nil p h ks]
+    rfl
+  | .term s f m v, pfx => by
+    unfold npathsN
+    rw [h]
+    rfl
+theorem npathsL_nil (p : DNode → Bool) (h : ∀ n, p n = false) : ∀ (ns : List DNode) (pfx : NPath) (i : Nat), npathsL p pfx i ns = []
+  | [], _, _ => by unfold npathsL; rfl
+  | n :: ns, pfx, i => by
+    unfold npathsL
+    rw [npathsN_nil p h n, npathsL_nil p h ns]
+    rfl
+end
+
+theorem whenSet_nil (S : Schema) (T : List DNode) : whenSet S [] T = [] := by
+  unfold whenSet
+  exact npathsL_nil _ (fun n => hasWhen_nil S n.sid) T [] 0
+
+theorem whenPhaseG_nil (ev : XpEv) (X : SchemaX) (o : VOpts) (T : List DNode) : whenPhaseG ev X [] o T = (T, {}) := by
+  unfold whenPhaseG
+  rw [whenSet_nil]
+  rfl
+
+/-- **without `when` statements the phase is the identity and logs nothing** -/
+theorem whenPhaseM_nil (ev : XpEv) (X : SchemaX) (o : VOpts) (T : List DNode) : whenPhaseM ev X [] o T = (T, {}) := by
+  unfold whenPhaseM markImpl
+  rw [markImplL_id _ (hasWhen_nil X.base), whenPhaseG_nil]
 
 end LyModel.Valid
